@@ -207,7 +207,8 @@ PureOps ==
      [op |-> "repair"], [op |-> "filter", sel |-> "gene"], [op |-> "finsert", feat |-> [key |-> "gene", label |-> "new", loc |-> Rg(1, 3, FALSE, FALSE)]],
      [op |-> "withfeatures"], [op |-> "withbytes"], [op |-> "withinfo"], [op |-> "copy"] >>
 NPure == Len(PureOps)
-Stores == <<"exact", "spare", "sub", "adjacent", "parsedorigin">>
+\* "adjacentg": like "adjacent" (one backing array, one shared feature table) with the guest in front of the host
+Stores == <<"exact", "spare", "sub", "adjacent", "parsedorigin", "adjacentg">>
 Kinds == <<"gb", "basic">>
 \* <<"pure", code, cfg>>: code = base-NPure numeral of the op sequence (PureLen digits, 0 = no op), cfg = store x kind
 RECURSIVE PowN(_, _)
@@ -247,10 +248,12 @@ PureRecs(g) ==
   LET st == Stores[(g % Len(Stores)) + 1]
       kd == Kinds[(g \div Len(Stores)) + 1]
   IN << [name |-> "r0", res |-> [j \in 1..6 |-> 96 + j], topo |-> "circular", kind |-> kd,
-         store |-> st, buf |-> "B", off |-> 0, feats |-> (IF Family = "puremerge" THEN PureFeatsM ELSE PureFeats),
+         store |-> (IF st = "adjacentg" THEN "adjacent" ELSE st), buf |-> "B", off |-> (IF st = "adjacentg" THEN 2 ELSE 0),
+         feats |-> (IF Family = "puremerge" THEN PureFeatsM ELSE PureFeats),
          refs |-> << RefRec(<< <<0, 6>> >>), RefRec(<< <<1, 4>>, <<4, 6>> >>), [info |-> "(sites)", ranged |-> FALSE, ranges |-> <<>>] >>],
         [name |-> "g0", res |-> [j \in 1..2 |-> 64 + j], topo |-> "na", kind |-> "basic",
-         store |-> st, buf |-> "B", off |-> 6, feats |-> <<FeatRec(Rg(0, 2, FALSE, FALSE), "g1", "gene")>>] >>
+         store |-> (IF st = "adjacentg" THEN "adjacent" ELSE st), buf |-> "B", off |-> (IF st = "adjacentg" THEN 0 ELSE 6),
+         feats |-> <<FeatRec(Rg(0, 2, FALSE, FALSE), "g1", "gene")>>] >>
 
 TopoFor(x) == IF x[1] \in {"rotate", "rot2", "slice"} THEN "circular" ELSE "linear"
 
